@@ -13,7 +13,7 @@ Real code (run over harness.fakecourier, virtual clock):
                  and after acquisition) as the capacity/liveness oracle.
   family 'sched': the same real Worker / WorkerPool / WorkerRegistry objects (and the real CourierServer._heartbeat
                  handler) with several pool threads and environment threads (die / revive / heartbeat sends / late or
-                 failed deliveries / clock ticks) under the DETERMINISTIC SCHEDULER (harness/sched/shim.py, machinery in
+                 failed deliveries / clock ticks / the real CourierClient.shutdown of a worker's client) under the DETERMINISTIC SCHEDULER (harness/sched/shim.py, machinery in
                  harness/lib_owner.py): pre-emption at every operation of `_states_lock`, `_lock` (incl. `locked()`),
                  `WorkerRegistry._lock` and at every read / write of `Worker._worker_pool`; every executed operation
                  label, the enabled thread set before every step, the registry contents before every step and all
@@ -23,6 +23,17 @@ Real code (run over harness.fakecourier, virtual clock):
                  and environment threads; the composite operations' clock-driven spin loops are not in the LTS, so this
                  family is decided by the independent oracle alone (single owner, no stealing, dead stays dead, monotone,
                  nothing acquired when the operation returns or raises).
+  family 'schedc' (round 6): WorkerPool.run / call_and_wait STEP BY STEP under the scheduler over the manual transport, against
+                 other pools' threads and environment threads: besides the lock / attribute operations above, every clock read of
+                 courier_worker.py, every time.sleep, futures.wait([state]) and the done() polls of courier_worker.wait are yield
+                 points; the composite operations are programs of the product LTS (controller `Ctl` of Model/OwnerEnv.lean: the
+                 spin loops are loops whose exits are clock / environment choices), compared step by step like family 'sched'
+                 (labels, enabled sets, registry, results, final state); max_parallelism in {1, 2}.
+  family 'scheda' (round 6): orchestrate.as_completed under the scheduler as the OBSERVED SCRIPT of its primitive operations: every
+                 pool-level call made by the body of as_completed (pool.workers, next_idle_worker with the actual worker order,
+                 release_all(unused), acquired_workers, task.is_alive, worker.submit, the final release_all()) is logged and preceded by
+                 a marker yield (harness/lib_owner.py: install_as_completed_probes), the callee runs unchanged; the schedule is replayed
+                 on the product LTS with that script; a finished as_completed must have logged the finaliser last; oracle as for run.
 Model: lean/MlModel/Model/Registry.lean, Owner.lean, OwnerEnv.lean; theorems: lean/MlModel/Properties/C20.lean.
 `extra`: exhaustive exploration of all interleavings of small configurations of the Owner LTS in the Lean
 driver (a *test* of the model / theorem hypotheses), the racy orders of F13 / F14 executed by hand on the
@@ -50,14 +61,24 @@ TRUSTED = [
     'in the model and under the shim alike',
     'family sched: the servers are fake-transport endpoints whose heartbeat handler is the real CourierServer._heartbeat '
     'function applied to a stand-in object; max_parallelism = 1',
+    'family schedc (run / call_and_wait step by step, harness/lib_owner.py): additional yield points = every time.time() of '
+    'courier_worker.py, every time.sleep (pure yield: the virtual clock moves only by the environment tick), futures.wait([state]) '
+    'and the done() polls of courier_worker.wait as BLOCKING yields (the stutter-free equivalent of the two waits); time.time() of '
+    'courier_utils.py is fused into the step; max_parallelism in {1, 2}; the base script of pieces is a prophecy discovered by the '
+    'driver and re-checked on the pure xstep? in a second pass',
+    'family scheda: the control flow of orchestrate.as_completed (which pool-level call comes next, with which worker order) is OBSERVED, '
+    'not modelled: class-level probes active only for calls whose caller frame is as_completed log the call and yield a marker; '
+    'orchestrate.time.sleep is fused',
 ]
 ASSUMPTIONS = [
     'times are integral ticks of a virtual clock; thresholds in {100, 180, 400}',
     'every pool-level operation is given worker lists inside the pool; blocking acquire_by (no caller) not modelled',
-    'released-on-exit is stated for a pool driven by one thread at a time (other pools/threads arbitrary)',
+    'released-on-exit is stated for a pool with one acquiring thread (other threads may release / call / poll for the same '
+    'pool; other pools arbitrary)',
 ]
 RULE = ('live: small-exhaustive event sequences (length<=3 quick / <=4 thorough) over a 15-letter alphabet on 2 addresses '
-        'and 2 clients, then random sequences of length<=25, clock start 50 or 1000; own: random sequences (<=14 ops) of '
+        'and 2 clients, then random sequences of length<=25, clock start 50 or 1000, plus (server life-cycle) every sequence of '
+        '<=3 (thorough 4) restart/kill/shutdown/deliver/call/alive events after a delivered shutdown; own: random sequences (<=14 ops) of '
         '_acquire_all/release_all/next_idle_worker/release/run/call_and_wait/as_completed/hang/unhang/die/revive (tasks that '
         'raise and tasks that pronounce a worker dead while they run) from 2-3 pools over '
         '2-3 shared workers, plus all ordered pairs of a small op alphabet; non-trivial = live: some is_alive observed after '
@@ -69,6 +90,13 @@ RULE = ('live: small-exhaustive event sequences (length<=3 quick / <=4 thorough)
         'the LTS yields, per program point, a shortest schedule ending there, replayed on the real code; '
         'schedrun (oracle only): one pool thread running WorkerPool.run / call_and_wait (tasks that succeed or raise) against the '
         'pool and environment threads of a sched case, inline transport, spin loops advance the virtual clock by 30-100 s; '
+        'schedc: thread 0 runs 1-2 of run / call_and_wait (task ok / raises; optionally an _acquire_all before and a next_idle_worker after), '
+        '0-2 other pool threads (other pools: sched operations; same pool: release_all / call / idle_workers), 1-3 environment threads '
+        '(die / revive / send / deliver late or failed / tick up to 200 s, so that the 180 s deadlines and the heartbeat threshold are crossed), '
+        '1-3 workers with max_parallelism 1-2, schedule as in sched, cut after 1200 steps (spin loops); '
+        'scheda: thread 0 consumes as_completed over 0-4 tasks (ok / raising; all results, or k then close, or closed unstarted; '
+        'ignore_failures on / off), other pools compete, the same pool may be driven by a non-acquiring second thread, environment as in '
+        'schedc with mostly short ticks and a transport thread of 40-120 deliveries; '
         'distinct = distinct canonical case JSON')
 
 THRS = [100, 180, 400]
@@ -256,6 +284,8 @@ def rand_sched_env_op(rng, nworkers):
     return dict(op='send', w=w, alive=rng.random() < 0.5)
   if r < 0.85:
     return dict(op='deliver', k=rng.randrange(3), fail=rng.random() < 0.2)
+  if r < 0.91:               # (round 6) the worker's client is shut down: CourierClient.shutdown, not under _states_lock
+    return dict(op='shutdown', w=w)
   return dict(op='tick', d=rng.choice([0, 1, 31, 60, 99, 100, 200]))
 
 
@@ -299,6 +329,80 @@ def rand_schedrun(rng):
   return c
 
 
+def rand_schedc(rng):
+  """Composite operations step by step: thread 0 runs `run` / `call_and_wait` (tasks that succeed or raise at the worker);
+  other pool threads acquire / release / call the same workers; the environment pronounces workers dead, revives them,
+  lets the clock run past the 180 s deadlines and delivers (or fails, or never delivers) the replies."""
+  nworkers = rng.choice([1, 1, 2, 2, 3])
+  npools = rng.choice([1, 2, 2])
+  pw = []
+  for _ in range(npools):
+    ws = [w for w in range(nworkers) if rng.random() < 0.8] or [rng.randrange(nworkers)]
+    rng.shuffle(ws)
+    pw.append(ws)
+  p = rng.randrange(npools)
+  mine = []
+  if rng.random() < 0.2:
+    mine.append(dict(op='acquire_all', p=p, ws=list(pw[p]), n=0))
+  for _ in range(rng.choice([1, 1, 2])):
+    mine.append(dict(op=rng.choice(['run', 'run', 'call_and_wait']), p=p, task=rng.choice(['ok', 'ok', 'raise'])))
+  if rng.random() < 0.2:
+    mine.append(dict(op='next_idle', p=p, ws=list(pw[p]), acq=True))
+  threads = [dict(kind='pool', ops=mine)]
+  for q in range(npools):
+    if q != p and rng.random() < 0.8:
+      threads.append(dict(kind='pool', ops=[rand_sched_pool_op(rng, q, pw[q]) for _ in range(rng.randrange(1, 4))]))
+  if rng.random() < 0.25:       # a second driver of the same pool (no oracle claim about exit then; the tie still holds)
+    threads.append(dict(kind='pool', ops=[rng.choice([dict(op='release_all', p=p, ws=[]), dict(op='call', p=p, w=rng.choice(pw[p])),
+                                                      dict(op='idle', p=p)])]))
+  def env_op():
+    r = rng.random()
+    w = rng.randrange(nworkers)
+    if r < 0.15:
+      return dict(op='die', w=w)
+    if r < 0.30:
+      return dict(op='revive', w=w)
+    if r < 0.38:
+      return dict(op='send', w=w, alive=rng.random() < 0.5)
+    if r < 0.80:
+      return dict(op='deliver', k=rng.randrange(3), fail=rng.random() < 0.2)
+    return dict(op='tick', d=rng.choice([0, 1, 31, 60, 99, 100, 200]))
+  for _ in range(rng.choice([1, 1, 2])):
+    threads.append(dict(kind='env', ops=[env_op() for _ in range(rng.randrange(1, 6))]))
+  if rng.random() < 0.85:       # a transport that answers (late)
+    threads.append(dict(kind='env', ops=[dict(op='deliver', k=0, fail=False) for _ in range(rng.randrange(4, 18))]))
+  return dict(fam='schedc', nworkers=nworkers, pw=pw, thr=rng.choice([100, 100, 180]), now=1000,
+              mp=[rng.choice([1, 1, 2]) for _ in range(nworkers)],
+              reg0=[rng.choice(['alive', 'alive', 'alive', 'alive', 'alive', 'dead', 'absent']) for _ in range(nworkers)],
+              threads=threads, sched=sched_spec(rng))
+
+
+def rand_scheda(rng):
+  """orchestrate.as_completed under the scheduler (observed script of primitives): thread 0 consumes as_completed over
+  0-4 tasks (ok / raising), takes all results, or k of them and closes the generator, or closes it unstarted; other pools
+  compete for the same workers; the environment kills / revives workers and delivers (or fails) the replies late."""
+  c = rand_schedc(rng)
+  c['fam'] = 'scheda'
+  p = c['threads'][0]['ops'][0]['p']
+  nt = rng.randrange(0, 5)
+  c['threads'][0] = dict(kind='pool', ops=[dict(op='as_completed', p=p, tasks=[rng.choice(['ok', 'ok', 'raise']) for _ in range(nt)],
+                                                take=rng.choice([None, None, None, None, 1, 1, 2, 0] if nt else [None, 0]),
+                                                ignore=rng.random() < 0.4)])
+  c['reg0'] = [r if rng.random() < 0.3 else 'alive' for r in c['reg0']]
+  if rng.random() < 0.75:
+    c['sched']['kind'] = 'random'      # (under PCT a spinning as_completed starves the transport: the run is cut)
+  c['threads'] = [t for i, t in enumerate(c['threads'])
+                  if i == 0 or t['kind'] == 'env' or all(o['p'] != p or o['op'] in ('release_all', 'call', 'idle') for o in t['ops'])]
+  # a transport that keeps answering for a while (one step per delivery; as_completed needs dozens of steps per loop round)
+  c['threads'].append(dict(kind='env', ops=[dict(op='deliver', k=0, fail=rng.random() < 0.05) for _ in range(rng.randrange(40, 120))]))
+  for t in c['threads']:            # mostly short ticks: as_completed gives up as soon as no worker of the pool is alive
+    if t['kind'] == 'env':
+      for o in t['ops']:
+        if o['op'] == 'tick' and rng.random() < 0.7:
+          o['d'] = min(o['d'], 31)
+  return c
+
+
 def gen_cases(ctx):
   import os
   fams = os.environ.get('VERIF_C20_FAMILIES')          # development aid: restrict the families (default: all)
@@ -332,10 +436,26 @@ def _gen_cases(ctx):
   for _ in range(500 if quick else 8000):
     yield rand_own(rng)
   # --- sched (after the older families, whose random streams are thereby unchanged): real threads under the deterministic scheduler, replayed on the LTS
-  for _ in range(1500 if quick else 30000):
+  for _ in range(1500 if quick else 18000):
     yield rand_sched(rng)
-  for _ in range(300 if quick else 6000):
+  for _ in range(150 if quick else 2000):      # (round 6: largely subsumed by family schedc below; kept as an oracle-only cross-check)
     yield rand_schedrun(rng)
+  # --- live, server life-cycle (round 6; no PRNG use): after a delivered shutdown every sequence of <= 3 (4 thorough) of
+  # restart / kill / shutdown / deliver / call / alive, closed by a call, deliveries, a registration and is_alive: the
+  # restarted server (CourierServer.start() after a stop: transport up, no run loop) must answer and must not stop again
+  lal = [dict(op='shutdown', i=0), dict(op='deliver', k=0, fail=False), dict(op='revive', a=0), dict(op='kill', a=0),
+         dict(op='call', i=0), dict(op='alive', i=0)]
+  for n in range(1, 4 if quick else 5):
+    for seq in itertools.product(range(len(lal)), repeat=n):
+      yield live_case(1000, [dict(op='shutdown', i=0), dict(op='deliver', k=0, fail=False)] + [lal[i] for i in seq] +
+                      [dict(op='call', i=0), dict(op='deliver', k=0, fail=False), dict(op='deliver', k=0, fail=False),
+                       dict(op='reg', a=0, t=990), dict(op='alive', i=0)])
+  # --- schedc (round 6): run / call_and_wait step by step under the scheduler
+  for _ in range(330 if quick else 6000):
+    yield rand_schedc(rng)
+  # --- scheda (round 6): orchestrate.as_completed under the scheduler, as the observed script of its primitive operations
+  for _ in range(160 if quick else 3000):
+    yield rand_scheda(rng)
 
 
 # ----------------------------------------------------------------------------- real code
@@ -343,6 +463,8 @@ def _gen_cases(ctx):
 def run_impl(case):
   if case['fam'] in ('sched', 'schedrun'):
     return lo.run_real(case)
+  if case['fam'] in ('schedc', 'scheda'):
+    return lo.run_real(case, max_steps=1200)
   return run_live(case) if case['fam'] == 'live' else run_own(case)
 
 
@@ -543,8 +665,10 @@ def run_own(case):
 def model_requests_obs(case, obs):
   if case['fam'] == 'schedrun':      # oracle-only family: the composite operations are not modelled step by step
     return []
-  if case['fam'] == 'sched':
+  if case['fam'] in ('sched', 'schedc'):
     return [lo.model_request(case, obs['choices'])]
+  if case['fam'] == 'scheda':
+    return [lo.model_request(case, obs['choices'], obs['alog'])]
   return model_requests(case)
 
 
@@ -583,7 +707,8 @@ LIVE_BRANCHES = [
     'reg/absent', 'reg/dead', 'reg/live', 'refresh/absent', 'refresh/dead', 'refresh/live', 'unreg', 'tick',
     'alive/true', 'alive/false', 'alive/false+hb', 'call', 'send/alive', 'send/dead', 'deliver/empty',
     'deliver/cancelled', 'deliver/down', 'deliver/fail', 'deliver/hb-nosender', 'deliver/hb-register',
-    'deliver/hb-unregister', 'deliver/plain', 'deliver/shutdown', 'kill', 'revive', 'shutdown']
+    'deliver/hb-unregister', 'deliver/plain', 'deliver/shutdown', 'deliver/shutdown-noloop', 'kill', 'revive',
+    'revive/restart', 'shutdown']
 
 
 def _cover(kind, key, n=1):
@@ -601,7 +726,13 @@ PROGRAM_POINTS = [
     'rWr', 'rExit', 'vRdLocked', 'vRdPool', 'lRdLocked', 'lRdPool', 'cEnter', 'cExit', 'iEnter', 'i.foldAcq', 'i.foldRel',
     'i.getAcq', 'i.getRel', 'iExit', 'kEnter', 'kExit', 'e.die', 'e.die.acq', 'e.die.rel', 'e.revive', 'e.revive.acq',
     'e.revive.rel', 'e.send', 'e.tick', 'e.deliver.empty', 'e.deliver.fail', 'e.deliver.plain', 'e.deliver.ping',
-    'e.deliver.hb', 'e.hb.register', 'e.hb.unregister', 'e.hb.rel']
+    'e.deliver.hb', 'e.hb.register', 'e.hb.unregister', 'e.hb.rel',
+    # round 6: program points of the composite operations (controller of Model/OwnerEnv.lean)
+    'c.start.run', 'c.start.caw', 'c.rTick', 'c.rCond', 'c.rCond.err', 'c.rAlive.ret', 'c.rAlive.sleep', 'c.rNext',
+    'c.rClockN.timeout', 'c.rClockN.submit', 'c.rClockN.again', 'c.rSub.wait', 'c.rSub.sleepAlive', 'c.rSub.disconnected',
+    'c.rSub.sleepCap', 'c.cAcq', 'c.cWait', 'r.strAcq', 'r.strRel', 'e.deliver.taskRaise',
+    'e.shutdown', 'e.deliver.cancelled', 'e.deliver.shutdown',
+    'c.start.submit', 'c.sSub.sleepAlive', 'c.sSub.disconnected', 'c.sSub.sleepCap']
 _SCHEDULES = set()
 
 
@@ -610,10 +741,20 @@ def model_obs(case, resps):
     _cover('schedrun', 'runs')
     return dict(skip=True)
   r = resps[0]
-  if case['fam'] == 'sched':
+  if case['fam'] in ('sched', 'schedc', 'scheda'):
     m = lo.model_obs(case, r)
     for pp in m['pps']:
       _cover('sched_program_points', pp)
+    if case['fam'] == 'scheda':
+      _cover('scheda', 'schedules replayed')
+      _cover('scheda', 'steps', len(m['pps']))
+    if case['fam'] == 'schedc':
+      _cover('schedc', 'schedules replayed')
+      _cover('schedc', 'steps', len(m['pps']))
+      for t, th in enumerate(case['threads']):
+        for o, v in zip(th['ops'], m['results'][t]):
+          if o['op'] in lo.COMPOSITE_OPS:
+            _cover('schedc_outcomes', f"{o['op']}/{v}")
     _cover('sched_schedules', 'replayed')
     _cover('sched_schedules', 'steps', len(m['pps']))
     _cover('sched_schedule_kind', case['sched']['kind'])
@@ -680,7 +821,7 @@ def compare(impl, model):
 # ----------------------------------------------------------------------------- oracle (the property itself)
 
 def oracle(case, obs):
-  if case['fam'] in ('sched', 'schedrun'):
+  if case['fam'] in ('sched', 'schedrun', 'schedc', 'scheda'):
     return oracle_sched(case, obs)
   return oracle_live(case, obs) if case['fam'] == 'live' else oracle_own(case, obs)
 
@@ -688,7 +829,11 @@ def oracle(case, obs):
 def oracle_sched(case, obs):
   """The property, on the public observations taken between every two steps of the real run (written from the
   English statement; uses the case, which thread moved and what the transport delivered — not the model)."""
-  if obs['outcome'] not in ('done', 'cut'):
+  waiting_for_reply = (case['fam'] == 'schedc' and obs['outcome'] == 'deadlock' and obs.get('blocked') and
+                       all(b[2] in ('fwait', 'wdone') for b in obs['blocked']))
+  # (schedc, manual transport: a composite operation whose call the environment never answers waits for ever — it has
+  #  not returned, the exit clause does not apply; every step up to that point is still checked below)
+  if obs['outcome'] not in ('done', 'cut') and not waiting_for_reply:
     return f"the run did not finish: {obs['outcome']} {obs.get('err')} blocked={obs.get('blocked')}"
   if obs['excs']:
     return f"a thread ended with an exception: {obs['excs']}"
@@ -699,6 +844,12 @@ def oracle_sched(case, obs):
     if th['kind'] == 'pool':
       for o in th['ops']:
         drivers[o['p']].add(t)
+  acquirers = [set() for _ in range(npools)]        # threads that may acquire for a pool
+  for t, th in enumerate(ths):
+    if th['kind'] == 'pool':
+      for o in th['ops']:
+        if o['op'] in ('acquire_all',) + tuple(lo.COMPOSITE_LIKE) or (o['op'] == 'next_idle' and o['acq']):
+          acquirers[o['p']].add(t)
   last_step = {}                                     # (tid, op index) -> index of its last executed step
   first_step = {}
   for k, (tid, _, oi) in enumerate(steps):
@@ -718,13 +869,13 @@ def oracle_sched(case, obs):
       for p in set(oa) - set(ob):
         ok = (th['kind'] == 'pool' and op['p'] == p and
               ((op['op'] == 'release' and op['w'] == w) or (op['op'] == 'release_all' and (not op['ws'] or w in op['ws']))
-               or (op['op'] in lo.COMPOSITE_OPS and w in case['pw'][p])))
+               or (op['op'] in lo.COMPOSITE_LIKE and w in case['pw'][p])))
         if not ok:
           return f'{where}: pool {p} lost worker {w} through an operation that is not its own release'
       for p in set(ob) - set(oa):
         ok = (th['kind'] == 'pool' and op['p'] == p and
               ((op['op'] == 'acquire_all' and w in op['ws']) or (op['op'] == 'next_idle' and op['acq'] and w in op['ws'])
-               or (op['op'] in lo.COMPOSITE_OPS and w in case['pw'][p])))
+               or (op['op'] in lo.COMPOSITE_LIKE and w in case['pw'][p])))
         if not ok:
           return f'{where}: pool {p} became owner of worker {w} through an operation that does not acquire it for {p}'
       ra, rb = a['reg'][w], b['reg'][w]
@@ -732,7 +883,7 @@ def oracle_sched(case, obs):
         info = obs['opinfo'].get(f'{tid},{oi}') if th['kind'] == 'env' and op['op'] in ('deliver', 'send') else None
         hb = info if (info and info['method'] == 'heartbeat' and info['sender'] == w and not info['fail']) else None
         registers = th['kind'] == 'env' and ((op['op'] == 'revive' and op['w'] == w) or (hb is not None and hb['alive']))
-        unregisters = th['kind'] == 'env' and ((op['op'] == 'die' and op['w'] == w) or (hb is not None and not hb['alive']))
+        unregisters = th['kind'] == 'env' and ((op['op'] in ('die', 'shutdown') and op['w'] == w) or (hb is not None and not hb['alive']))
         if rb == 'absent':
           return f'{where}: the registry forgot worker {w}'
         if ra is None and not registers:
@@ -760,17 +911,24 @@ def oracle_sched(case, obs):
         for w in res:
           if b['owners'][w] != [p]:
             return f'{where}: _acquire_all of pool {p} returned worker {w} but its owners are {b["owners"][w]}'
-      if op['op'] == 'release_all' and not op['ws'] and drivers[p] == {tid}:
+      # (round 6) the exit clauses also apply to a pool that other threads drive too, as long as those never acquire for it
+      sole_acq = acquirers[p] <= {tid}
+      if op['op'] == 'release_all' and not op['ws'] and sole_acq:
         held = [w for w in range(nw) if p in b['owners'][w]]
         if held:
           return f'{where}: release_all() of pool {p} returned and the pool still owns workers {held}'
-      if op['op'] in lo.COMPOSITE_OPS and drivers[p] == {tid}:
+      if op['op'] == 'as_completed' and sole_acq and res != 'never-started':
+        # "when a pool-level operation returns or raises [or its generator is closed], none of its workers remains acquired"
+        held = [w for w in range(nw) if p in b['owners'][w]]
+        if held:
+          return f'{where}: as_completed of pool {p} ended with {res!r} and the pool still owns workers {held}'
+      if op['op'] in lo.COMPOSITE_OPS and sole_acq:
         # "when a pool-level operation returns or raises, none of its workers remains acquired"
         held = [w for w in range(nw) if p in b['owners'][w]]
         before = [w for w in range(nw) if p in span[0]['owners'][w]]
         if op['op'] == 'run' and str(res).startswith('err:ValueError:Failed to connect'):
           # run() on a pool without a live worker fails in wait_until_alive() before its try block: it did not start
-          if held != before:
+          if held != before and drivers[p] == {tid}:
             return f'{where}: run() that could not start (no live worker) changed what pool {p} owns: {before} -> {held}'
         elif held:
           return f'{where}: {op["op"]}() of pool {p} ended with {res!r} and the pool still owns workers {held}'
@@ -893,7 +1051,7 @@ def oracle_own(case, obs):
 
 
 def nontrivial(case, obs):
-  if case['fam'] in ('sched', 'schedrun'):
+  if case['fam'] in ('sched', 'schedrun', 'schedc', 'scheda'):
     ch = obs['choices']
     return sum(1 for a, b in zip(ch, ch[1:]) if a != b) >= 8
   if case['fam'] == 'live':
@@ -919,11 +1077,17 @@ def finding(case, what):
 
 
 def neighbours(case, rng):
-  if case['fam'] == 'schedrun':
+  if case['fam'] in ('schedrun', 'schedc', 'scheda'):
     for k in range(300):
       c = copy.deepcopy(case)
       c['sched'] = sched_spec(rng)
       yield c
+    if case['fam'] == 'schedc':
+      for _ in range(200):
+        yield rand_schedc(rng)
+    if case['fam'] == 'scheda':
+      for _ in range(200):
+        yield rand_scheda(rng)
     return
   if case['fam'] == 'sched':
     for k in range(300):
@@ -971,7 +1135,7 @@ def shrink_sched(case, fails):
 
 
 def shrink(case, fails):
-  if case['fam'] in ('sched', 'schedrun'):
+  if case['fam'] in ('sched', 'schedrun', 'schedc', 'scheda'):
     return shrink_sched(case, fails)
   cur = case
   key = 'events' if case['fam'] == 'live' else 'ops'
@@ -1027,7 +1191,33 @@ COVER_CONFIGS = [
                   dict(kind='env', ops=[dict(op='send', w=0, alive=True), dict(op='send', w=1, alive=False),
                                         dict(op='deliver', k=1, fail=False), dict(op='deliver', k=0, fail=False),
                                         dict(op='deliver', k=0, fail=False), dict(op='deliver', k=0, fail=False)])]),
+    # round 6: CourierClient.shutdown racing with is_alive / has_capacity / call of pool threads
+    dict(nworkers=1, pw=[[0], [0]], thr=100, now=1000, reg0=['alive'],
+         threads=[dict(kind='pool', ops=[dict(op='call', p=0, w=0), dict(op='next_idle', p=0, ws=[0], acq=True)]),
+                  dict(kind='env', ops=[dict(op='shutdown', w=0), dict(op='deliver', k=0, fail=False), dict(op='deliver', k=0, fail=False)])]),
+    # round 6: composite operations (fam 'schedc'): every program point of the controller
+    dict(nworkers=1, pw=[[0], [0]], thr=100, now=1000, reg0=['alive'], mp=[1],
+         threads=[dict(kind='pool', ops=[dict(op='run', p=0, task='ok')]),
+                  dict(kind='pool', ops=[dict(op='call', p=1, w=0)]),
+                  dict(kind='env', ops=[dict(op='die', w=0), dict(op='tick', d=200), dict(op='deliver', k=0, fail=False),
+                                        dict(op='deliver', k=0, fail=False)])]),
+    dict(nworkers=1, pw=[[0]], thr=100, now=1000, reg0=['dead'], mp=[1],
+         threads=[dict(kind='pool', ops=[dict(op='run', p=0, task='raise')]),
+                  dict(kind='env', ops=[dict(op='tick', d=200), dict(op='revive', w=0), dict(op='deliver', k=0, fail=False),
+                                        dict(op='deliver', k=0, fail=False)])]),
+    dict(nworkers=1, pw=[[0], [0]], thr=100, now=1000, reg0=['alive'], mp=[1],
+         threads=[dict(kind='pool', ops=[dict(op='next_idle', p=0, ws=[0], acq=True), dict(op='submit', p=0, w=0, task='ok'),
+                                         dict(op='release_all', p=0, ws=[])]),
+                  dict(kind='pool', ops=[dict(op='call', p=1, w=0)]),
+                  dict(kind='env', ops=[dict(op='die', w=0), dict(op='tick', d=200), dict(op='deliver', k=0, fail=False)])]),
+    dict(nworkers=2, pw=[[0, 1]], thr=100, now=1000, reg0=['alive', 'alive'], mp=[1, 2],
+         threads=[dict(kind='pool', ops=[dict(op='call_and_wait', p=0, task='ok')]),
+                  dict(kind='env', ops=[dict(op='deliver', k=0, fail=False), dict(op='deliver', k=0, fail=True)])]),
 ]
+
+
+def _is_composite_cfg(cfg):
+  return any(o['op'] in lo.COMPOSITE_OPS + ('submit',) for t in cfg['threads'] for o in t['ops'])
 
 
 def _model_guided_stage(ctx):
@@ -1047,7 +1237,8 @@ def _model_guided_stage(ctx):
     ctx.count('sched_model_guided', 'LTS states searched', r['states'])
     todo = []
     for f in r['found']:
-      case = dict(fam='sched', sched=dict(kind='replay', choices=f['sched']), **copy.deepcopy(cfg))
+      case = dict(fam='schedc' if _is_composite_cfg(cfg) else 'sched', sched=dict(kind='replay', choices=f['sched']),
+                  **copy.deepcopy(cfg))
       todo.append((f['pp'], case, lo.run_real(case)))
     mresps = ctx.lean.ask_many([lo.model_request(case, obs['choices']) for _, case, obs in todo])
     for (pp, case, obs), mr in zip(todo, mresps):
@@ -1078,7 +1269,8 @@ def extra(ctx):
   missing_pp = [pp for pp in PROGRAM_POINTS if pp not in seen]
   ctx.notes.append(f'sched: {len(seen & set(PROGRAM_POINTS))}/{len(PROGRAM_POINTS)} program points of the product LTS executed on the real '
                    f'code under the scheduler ({len(reached)} by the model-guided stage); {len(_SCHEDULES)} distinct interleavings')
-  if missing_pp and _COVER.get('sched_program_points'):
+  if missing_pp and _COVER.get('sched_program_points') and not ctx.extra_disagreements and not ctx.extra_oracle_failures:
+    # (a model-guided replay that disagrees or fails the oracle does not count as reached: that is a verdict, reported below)
     from harness.core import InfraError
     raise InfraError(f'C20 sched family missed program points {missing_pp}')
   import os
